@@ -27,6 +27,9 @@ func init() {
 			ex.bigStore(st, args[0], ex.bigConst(v))
 			return []Value{args[0], True()}
 		}
+		if base == 0 {
+			return ex.bigSetStringBase0(st, args, sv)
+		}
 		if base != 10 && base != 2 && base != 8 && base != 16 {
 			unsupported("big.SetString of a symbolic string in base %d", base)
 		}
@@ -100,4 +103,121 @@ func init() {
 		ex.bigStore(st, args[0], val)
 		return []Value{args[0], True()}
 	})
+}
+
+// bigSetStringBase0: base 0 per the math/big documentation and natconv.go's scan: optional sign,
+// then "0b"/"0o"/"0x" (either case) select base 2/8/16, a leading "0" selects base 8, otherwise
+// base 10; an underscore may separate digits or the prefix and a digit (never first without a
+// prefix, never doubled, never last); at least one digit unless the text is the octal prefix alone.
+// The structure (which bytes are underscores / digits / prefix letters) is decided by forking, the
+// digit values stay symbolic.
+func (ex *Exec) bigSetStringBase0(st *State, args []Value, sv StrV) []Value {
+	bs := ex.strBytes(sv)
+	k8 := IntKind{8, false}
+	isCh := func(b *Term, c byte) *Term { return Eq(b, ex.intConst(big.NewInt(int64(c)), k8)) }
+	inRange := func(b *Term, lo, hi byte) *Term {
+		if ex.IntMode {
+			return And(ICmp(">=", b, IntC64(int64(lo))), ICmp("<=", b, IntC64(int64(hi))))
+		}
+		return And(BVCmp("bvuge", b, BVC64(uint64(lo), 8)), BVCmp("bvule", b, BVC64(uint64(hi), 8)))
+	}
+	fail := []Value{PtrV{}, False()}
+	n := len(bs)
+	if n == 0 {
+		return fail
+	}
+	pos := 0
+	neg := False()
+	if ex.decide(st, Or(isCh(bs[0], '+'), isCh(bs[0], '-'))) {
+		neg = isCh(bs[0], '-')
+		pos = 1
+	}
+	if pos >= n {
+		return fail
+	}
+	b := 10
+	prefix := byte(0)
+	prevDigit := false
+	count := 0
+	if ex.decide(st, isCh(bs[pos], '0')) {
+		prevDigit = true
+		count = 1
+		pos++
+		if pos < n {
+			switch {
+			case ex.decide(st, Or(isCh(bs[pos], 'b'), isCh(bs[pos], 'B'))):
+				b, prefix = 2, 'p'
+			case ex.decide(st, Or(isCh(bs[pos], 'o'), isCh(bs[pos], 'O'))):
+				b, prefix = 8, 'p'
+			case ex.decide(st, Or(isCh(bs[pos], 'x'), isCh(bs[pos], 'X'))):
+				b, prefix = 16, 'p'
+			default:
+				b, prefix = 8, '0'
+			}
+			count = 0
+			if prefix == 'p' {
+				pos++
+			}
+		}
+	}
+	isDigit := func(t *Term) *Term {
+		top := byte('9')
+		if b < 10 {
+			top = byte('0' + b - 1)
+		}
+		d := inRange(t, '0', top)
+		if b == 16 {
+			d = Or(d, Or(inRange(t, 'a', 'f'), inRange(t, 'A', 'F')))
+		}
+		return d
+	}
+	var digits []*Term
+	invalSep, prevUnderscore := false, false
+	for ; pos < n; pos++ {
+		if ex.decide(st, isCh(bs[pos], '_')) {
+			if !prevDigit {
+				invalSep = true
+			}
+			prevDigit, prevUnderscore = false, true
+			continue
+		}
+		if !ex.decide(st, isDigit(bs[pos])) {
+			return fail // not consumed entirely
+		}
+		digits = append(digits, bs[pos])
+		prevDigit, prevUnderscore = true, false
+		count++
+	}
+	if invalSep || prevUnderscore {
+		return fail
+	}
+	if count == 0 && prefix != '0' {
+		return fail
+	}
+	var val *Term
+	if ex.IntMode {
+		val = IntC64(0)
+		for _, c := range digits {
+			d := ISub(c, IntC64('0'))
+			if b == 16 {
+				d = Ite(ICmp("<=", c, IntC64('9')), d, Ite(ICmp(">=", c, IntC64('a')), ISub(c, IntC64('a'-10)), ISub(c, IntC64('A'-10))))
+			}
+			val = IAdd(IMul(val, IntC64(int64(b))), d)
+		}
+		val = Ite(neg, INeg(val), val)
+	} else {
+		W := ex.BigW
+		val = BVC(bigZero, W)
+		for _, c8 := range digits {
+			c := ZExt(c8, W)
+			d := BV2("bvsub", c, BVC64('0', W))
+			if b == 16 {
+				d = Ite(BVCmp("bvule", c8, BVC64('9', 8)), d, Ite(BVCmp("bvuge", c8, BVC64('a', 8)), BV2("bvsub", c, BVC64('a'-10, W)), BV2("bvsub", c, BVC64('A'-10, W))))
+			}
+			val = BV2("bvadd", BV2("bvmul", val, BVC64(uint64(b), W)), d)
+		}
+		val = Ite(neg, BVNeg(val), val)
+	}
+	ex.bigStore(st, args[0], val)
+	return []Value{args[0], True()}
 }
